@@ -446,7 +446,8 @@ class _AbstractSampler(_ABC):
             assert (
                 max_time > 0.0
             ), "The maximal runtime (`max_time`) should be a float larger than zero."
-            self.max_time = max_time
+        # Also reset the limit of an earlier run on this object when none is given
+        self.max_time = max_time
 
         self.disable_progressbar = disable_progressbar
 
